@@ -17,7 +17,7 @@ import NfpmModel.Lemmas.VersionLemmas
     parse_components / dpkg_parsed_versions_order / deb_tail_noDigitHead
         every numeric component the recogniser returns is a digit run, so the M.m.p nfpm stores for two parsable
         version strings compare under verrevcmp as the number triples do, whatever nfpm appends ('~', '+', '-')
-    rpm_numeric_order
+    rpm_numeric_order / rpm_semver_order / rpm_parsed_versions_order / rpm_tail_noDigitHead
         the same under rpm's rpmvercmp (the rpm epoch is a header tag of its own, compared as an integer by rpm)
     dpkg_epoch_dominates / dpkg_epoch_over_none
         a lower epoch sorts first under dpkg's whole comparison whatever the version strings are;
@@ -702,5 +702,53 @@ theorem deb_tail_noDigitHead (i : VInfo) :
 example : (parse (b!"v1.9")).map SemVer.core = some (b!"1.9.0") := by decide
 
 end ParsedOrder
+
+/-! ### rpm: the same for parsed versions -/
+
+/-- rpm: the three cases of a semantic version – major, minor or patch differs -/
+theorem rpm_semver_order (M1 m1 p1 M2 m2 p2 A B : Bytes)
+    (hM1 : DigitRun M1) (hm1 : DigitRun m1) (hp1 : DigitRun p1) (hM2 : DigitRun M2) (hm2 : DigitRun m2)
+    (hp2 : DigitRun p2) (hA : NoDigitHead A) (hB : NoDigitHead B)
+    (hlt : digitsVal M1 < digitsVal M2 ∨ (M1 = M2 ∧ digitsVal m1 < digitsVal m2) ∨
+      (M1 = M2 ∧ m1 = m2 ∧ digitsVal p1 < digitsVal p2)) :
+    rpmvercmp (M1 ++ dot :: m1 ++ dot :: p1 ++ A) (M2 ++ dot :: m2 ++ dot :: p2 ++ B) = -1 := by
+  have hdot : ∀ X : Bytes, NoDigitHead (dot :: X) := fun X => Or.inr ⟨dot, X, rfl, isDigit_dot⟩
+  rcases hlt with h | ⟨e, h⟩ | ⟨e, e', h⟩
+  · have := rpm_numeric_order [] (by simp) M1 M2 hM1 hM2 (dot :: m1 ++ dot :: p1 ++ A) (dot :: m2 ++ dot :: p2 ++ B)
+      (hdot _) (hdot _) h
+    simpa [dotted] using this
+  · subst e
+    have := rpm_numeric_order [M1] (by simpa using hM1) m1 m2 hm1 hm2 (dot :: p1 ++ A) (dot :: p2 ++ B)
+      (hdot _) (hdot _) h
+    simpa [dotted] using this
+  · subst e; subst e'
+    have := rpm_numeric_order [M1, m1] (by intro d hd; simp at hd; rcases hd with r | r <;> (subst r; assumption))
+      p1 p2 hp1 hp2 A B hA hB h
+    simpa [dotted] using this
+
+/-- **rpm: the versions nfpm derives order numerically**: the `M.m.p` of two parsable version strings compare under
+    rpmvercmp as the number triples do, whatever rpm.formatVersion appends ('~prerelease', '+metadata') -/
+theorem rpm_parsed_versions_order (s1 s2 : Bytes) (v1 v2 : SemVer.V) (h1 : SemVer.parse s1 = some v1)
+    (h2 : SemVer.parse s2 = some v2) (A B : Bytes) (hA : NoDigitHead A) (hB : NoDigitHead B)
+    (hlt : digitsVal v1.major < digitsVal v2.major ∨ (v1.major = v2.major ∧ digitsVal v1.minor < digitsVal v2.minor) ∨
+      (v1.major = v2.major ∧ v1.minor = v2.minor ∧ digitsVal v1.patch < digitsVal v2.patch)) :
+    rpmvercmp (SemVer.core v1 ++ A) (SemVer.core v2 ++ B) = -1 := by
+  obtain ⟨a1, b1, c1⟩ := parse_components s1 v1 h1
+  obtain ⟨a2, b2, c2⟩ := parse_components s2 v2 h2
+  have := rpm_semver_order v1.major v1.minor v1.patch v2.major v2.minor v2.patch A B a1 b1 c1 a2 b2 c2 hA hB hlt
+  simpa [SemVer.core, List.append_assoc] using this
+
+/-- what rpm.formatVersion writes after the version is empty or starts with '~' or '+': never a digit -/
+theorem rpm_tail_noDigitHead (i : VInfo) : ∃ T, rpmVersion i = i.version ++ T ∧ NoDigitHead T := by
+  refine ⟨(if i.prerelease ≠ [] then tilde :: replaceByte minus [underscore] i.prerelease else [])
+    ++ (if i.metadata ≠ [] then plus :: i.metadata else []), by simp [rpmVersion], ?_⟩
+  unfold NoDigitHead
+  by_cases hp : i.prerelease = []
+  · by_cases hm : i.metadata = []
+    · left; simp [hp, hm]
+    · right; exact ⟨plus, i.metadata, by simp [hp, hm], by decide⟩
+  · right
+    exact ⟨tilde, replaceByte minus [underscore] i.prerelease ++ (if i.metadata ≠ [] then plus :: i.metadata else []),
+      by simp [hp], by decide⟩
 
 end Nfpm.Props.C14
